@@ -22,6 +22,8 @@ use zipora::memory::{SecureMemoryPool, SecurePoolConfig};
 
 #[path = "c02_x.rs"]
 mod x;
+#[path = "c02_b.rs"]
+mod b;
 
 const HEADER: &str = r#"From ZV.Common Require Import Base Run.
 From ZV.C02 Require Import Model RunCase RunCaseX.
@@ -850,7 +852,7 @@ fn run_one(cx: &mut Ctx, c: &Value) {
             let ops: Vec<Vec<u64>> = c["ops"].as_array().map(|a| a.iter().map(|o| o.as_array().map(|v| v.iter().map(|x| x.as_u64().unwrap_or(0)).collect()).unwrap_or_default()).collect()).unwrap_or_default();
             x::pazip_sim_case(cx, c["period"].as_u64().unwrap_or(1) as usize, c["seed"].as_u64().unwrap_or(0), c["dict_big"].as_bool().unwrap_or(false), &ops, true)
         }
-        "simd_tie" => x::simd_tie_bytes(cx, &bytes_of(&c["data"]), true),
+        "simd_tie" => x::simd_tie_bytes_v(cx, c["variant"].as_u64().unwrap_or(0) as usize, &bytes_of(&c["data"]), true),
         "big" => x::big_case(cx, c["front"].as_u64().unwrap_or(0), c["sel"].as_u64().unwrap_or(0) as usize, c["kind"].as_u64().unwrap_or(0), c["n"].as_u64().unwrap_or(0) as usize),
         "realtime_batch" => x::realtime_batch_case(cx, c["mode"].as_u64().unwrap_or(0) as usize, c["fallback"].as_bool().unwrap_or(true), c["item_len"].as_u64().unwrap_or(0) as usize, c["n_big"].as_u64().unwrap_or(0) as usize, c["seed"].as_u64().unwrap_or(0)),
         "pazip/legacy_decode_raw" => legacy_raw(cx, &bytes_of(&c["data"])),
@@ -858,14 +860,14 @@ fn run_one(cx: &mut Ctx, c: &Value) {
             let ops: Vec<Vec<u64>> = c["ops"].as_array().map(|a| a.iter().map(|o| o.as_array().map(|v| v.iter().map(|x| x.as_u64().unwrap_or(0)).collect()).unwrap_or_default()).collect()).unwrap_or_default();
             legacy_records_case(cx, c["period"].as_u64().unwrap_or(1) as usize, c["seed"].as_u64().unwrap_or(0), &ops)
         }
-        _ => {}
+        _ => { b::run_one_b(cx, c); }
     }
 }
 
 pub fn run(args: &Args) {
     quiet_panics();
     let mut cx = Ctx {
-        sum: Summary::new("C02", "corpus; PA-Zip match lists: every kind at min/max/min-1/max+1 of each field and at the variable-length thresholds, all ordered pairs of kinds, random lists of length 0..40, random bytes through decode_matches; every Algorithm of the factory x 10 payload families (incompressible, text, runs around 33/34, near and far periods, skewed, all symbols) x 7 training relations (same, unrelated, single byte, subset ...); hybrid selector and rANS table against the model; adaptive and real-time front ends as operation histories with algorithm / mode switches and passed / distant deadlines; PA-Zip compressor presets x dictionary builders x payload sequences; a case is non-trivial when the payload has >= 2 bytes or the list >= 2 matches; distinct = distinct canonical case text"),
+        sum: Summary::new("C02", "corpus; PA-Zip match lists: every kind at min/max/min-1/max+1 of each field and at the variable-length thresholds, all ordered pairs of kinds, random lists of length 0..40, random bytes through decode_matches; every Algorithm of the factory x 10 payload families (incompressible, text, runs around 33/34, near and far periods, skewed, all symbols) x 7 training relations (same, unrelated, single byte, subset ...); hybrid selector and rANS table against the model; adaptive and real-time front ends as operation histories with algorithm / mode switches and passed / distant deadlines; PA-Zip compressor presets x dictionary builders x payload sequences; breadth families (c02_b.rs): operation histories on one PA-Zip compressor (compress into fresh / reused vectors, decode earlier blocks into fresh / reused vectors, reset_stats, statistics, clone, rebuild from the serialised dictionary) over 17 configuration variants x 21 dictionary variants x 7 kinds of training text, dictionary sizes at the suffix-array builder's switch points, payload sizes at 64 KiB / 1 MiB, dictionary answers checked against the dictionary text, every constructor of the compressor layer (all zstd levels, select_best, available_algorithms, direct constructors, presets) under histories with estimate_ratio / is_suitable / algorithm(), adaptive and real-time histories over every constructor and configuration field with housekeeping calls, deferred decoding, concurrent calls and runs of more than 2000 calls, raw bit streams (write_bits / flush / encode_match mixed), every entry point of SIMD LZ77; a case is non-trivial when the payload has >= 2 bytes or the list >= 2 matches; distinct = distinct canonical case text"),
         shards: CoqShards::new(HEADER, 150),
         coq_budget: if args.thorough { 6000 } else { 1500 },
         per_op: std::collections::HashMap::new(),
@@ -1144,6 +1146,8 @@ pub fn run(args: &Args) {
         simd_lz77_case(&mut cx, &x);
     }
     x::run_simd_ties(&mut cx, th);
+    // 7. oracle breadth: secondary entry points, non-default configurations, thresholds, mixed histories (c02_b.rs)
+    b::run_breadth(&mut cx, th);
     cx.sum.dist_max("coq_cases", cx.shards.len() as u64);
     let sh = cx.shards.write(&args.out);
     cx.sum.write(&args.out, sh);
